@@ -121,7 +121,7 @@ func checkC02(c *Ctx) {
 	wGlobal = w
 	c.rule("C02.R1", "token map: total over the binary-operator tokens of grammar rule 'expression', no foreign key, injective", 15)
 	c.rule("C02.R2", "operation table: the evaluator case reached from each operator spelling performs the Go operation Yarn's table prescribes, on that alternative, left operand on the left; unary minus/not likewise", 22)
-	c.rule("C02.R3", "short-circuit: the right operand's evaluation is entailed to happen only when and/or are not decided by the left value; left before right, each at most once", 5)
+	c.rule("C02.R3", "short-circuit: the right operand's evaluation is entailed to happen only when and/or are not decided by the left value; left before right, each at most once", 3)
 	c.rule("C02.R4", "arguments: evaluated in one range loop over the argument slice at the loop index, appended in the same iteration, callee invoked once after the loop", 9)
 	c.rule("C02.R5", "every dereference of a Value alternative / use of a *Value in the evaluator is entailed non-nil by dominating guards; every nil-error return of the evaluator family returns a provably non-nil value", 40)
 	c.rule("C02.R6", "every labelled alternative of grammar rules 'expression' and 'value' has an Enter handler on the tree builder (pass-through: expParens, expValue)", 14)
